@@ -174,4 +174,72 @@ theorem C02_resumes_on_original_bytes (orig : Code) (ho : Bytes orig) :
     [.brk 0x1004, .start, .cont, .remove 0x1004, .brk 0x1008, .cont]).1.execd
   == [(0, 0x1000 % 251), (1, 0x1004 % 251), (2, 0x1008 % 251), (3, 0x1004 % 251)]
 
+/-! ## Histories with context-only commands (`frame k`, `backtrace`, reading locals)
+
+The debugger with its exploration context (`Model/Context.lean`); see the corresponding section of `Props/C01.lean`. -/
+
+/-- **C02_text_at_prompt_ctx.**  `C02_text_at_prompt` for histories with arbitrary interleavings of context-only
+commands: at every prompt the text is the original text with an INT3 exactly at the entry address and at the user
+breakpoints currently set — selecting frames and inspecting leaves no patch and removes none. -/
+theorem C02_text_at_prompt_ctx (τ : List Addr) (entry : Addr) (orig : Code) (exitCode : Nat) (cops : List COp)
+    (ho : Bytes orig) (hcc : ∀ a ∈ τ, orig a ≠ 0xCC) (hhead : τ.head? = some entry)
+    (hb : NoBreakAtEntry entry (eraseCtx cops)) (hr : NoRemoveAtEntry entry (eraseCtx cops)) :
+    ((execAllC (initC τ entry orig exitCode) cops).1.m.status = .unload →
+      ∀ a, (execAllC (initC τ entry orig exitCode) cops).1.m.code a = orig a) ∧
+    ((execAllC (initC τ entry orig exitCode) cops).1.m.status = .inProgress →
+      ∀ a, (execAllC (initC τ entry orig exitCode) cops).1.m.code a
+        = if a = entry ∨ a ∈ (Spec.run τ exitCode {} (eraseCtx cops)).1.B then 0xCC else orig a) := by
+  obtain ⟨_, e⟩ := C01_ctx_ops_invisible τ entry orig exitCode cops
+  obtain ⟨h1, h2⟩ := C02_text_at_prompt τ entry orig exitCode (eraseCtx cops) ho hcc hhead hb hr
+  rw [e.status, e.code]
+  exact ⟨h1, h2⟩
+
+/-- **C02_native_equivalence_ctx.**  `C02_native_equivalence` for every history over the extended alphabet (no
+hypothesis on the commands): the execution log is exactly the native run up to the current position, each instruction
+once, in order, on its original byte; the position stays within the trace; and no command — context-only ones do not
+move it at all — ever moves it backwards. -/
+theorem C02_native_equivalence_ctx (τ : List Addr) (entry : Addr) (orig : Code) (exitCode : Nat) (ho : Bytes orig)
+    (cops : List COp) :
+    (execAllC (initC τ entry orig exitCode) cops).1.m.execd
+      = (List.range (execAllC (initC τ entry orig exitCode) cops).1.m.idx).map (fun k => (k, orig (τ.getD k 0))) ∧
+    (execAllC (initC τ entry orig exitCode) cops).1.m.idx ≤ τ.length ∧
+    (∀ x : CtxOp, (execC (execAllC (initC τ entry orig exitCode) cops).1 (.ctx x)).1.m.idx
+      = (execAllC (initC τ entry orig exitCode) cops).1.m.idx) ∧
+    (∀ op : Op, (execAllC (initC τ entry orig exitCode) cops).1.m.idx
+      ≤ (execC (execAllC (initC τ entry orig exitCode) cops).1 (.base op)).1.m.idx) := by
+  obtain ⟨_, e⟩ := C01_ctx_ops_invisible τ entry orig exitCode cops
+  obtain ⟨h1, h2, h3⟩ := C02_native_equivalence τ entry orig exitCode ho (eraseCtx cops)
+  refine ⟨by rw [e.execd, e.idx]; exact h1, by rw [e.idx]; exact h2, fun x => ?_, fun op => ?_⟩
+  · rw [execC_ctx_m]
+  · rw [(execC_base_erase _ op).1, exec_pokeEq e op, e.idx]
+    exact h3 op
+
+/-- **C02_ctx_ops_invisible_steps.**  The same erasure for the step alphabet (`stepi`, `step`, `next`, `finish` with
+any temporaries, on top of C01's commands): the step commands re-read the thread's real pc first (`ecx_restore_frame`)
+and `single_step_instruction`, which does decide from the exploration context, only ever sees a context refreshed by
+the previous step or stop.  For EVERY history over that alphabet, from every state: answers and machine state are
+those of the history without the context-only commands — so every C02/C03 theorem about `execS` histories holds with
+context-only commands interleaved. -/
+theorem C02_ctx_ops_invisible_steps (c : CSt) (cops : List CSOp) :
+    baseOutsS (execAllSC c cops).2 = (execAllS c.m (eraseCtxS cops)).2 ∧
+    PokeEq (execAllSC c cops).1.m (execAllS c.m (eraseCtxS cops)).1 :=
+  let h := execAllSC_erase cops c c.m (PokeEq.refl _)
+  ⟨h.2, h.1⟩
+
+/-- one step command from any state and any exploration context (e.g. a caller frame selected): same landing, same
+machine state as without the context -/
+theorem C02_step_ignores_selected_frame (m : St) (e : Ecx) (op : SOp) :
+    (execSC { m := m, ecx := e } (.base op)).1.m = (execS m op).1 ∧
+    (execSC { m := m, ecx := e } (.base op)).2 = .base (execS m op).2 := by
+  obtain ⟨h1, h2⟩ := execSBaseC_erase { m := m, ecx := e } op
+  exact ⟨h1, by rw [← h2]; rfl⟩
+
+/-! sanity test (not a proof): `stepi` with the caller frame selected steps from the real pc, over the breakpoint -/
+#guard (execAllSC (initC [0x1000, 0x1004, 0x2000, 0x2004, 0x1008] 0x1000 (fun _ => 0x90) 0)
+    [.base (.base (.brk 0x2000)), .base (.base .start), .ctx (.frame 1 (some 0x1008)), .base (.stepn 1),
+     .ctx (.backtrace true)]).1.m.idx == 3
+#guard (execAllSC (initC [0x1000, 0x1004, 0x2000, 0x2004, 0x1008] 0x1000 (fun _ => 0x90) 0)
+    [.base (.base (.brk 0x2000)), .base (.base .start), .ctx (.frame 1 (some 0x1008)), .base (.stepn 1)]).1.ecx
+  == ⟨0x2004, 0⟩
+
 end BsVerif.Bp
